@@ -173,7 +173,16 @@ def run_cargotest(ws, pkg, test, prop, tier, seed, logf, timeout=3600, extra_env
         env.update(extra_env)
     cmd = ["cargo", TOOLCHAIN, "test", "--release", "--offline", "-p", pkg, "--lib", "--", test, "--exact",
            "--nocapture", "--test-threads", "1"]
-    rc, out = run_logged(cmd, wsdir, env, logf, timeout)
+    # The simulator builds every flow's dylib to ONE fixed file under the target dir when RUSTFLAGS is
+    # set; two simulator stages running at once would load each other's dylib. Serialise them.
+    import fcntl
+    os.makedirs(tgt, exist_ok=True)
+    with open(os.path.join(tgt, ".cargotest.lock"), "w") as lockf:
+        fcntl.flock(lockf, fcntl.LOCK_EX)
+        try:
+            rc, out = run_logged(cmd, wsdir, env, logf, timeout)
+        finally:
+            fcntl.flock(lockf, fcntl.LOCK_UN)
     with open(logf, "a") as lf:
         lf.write(out[-20000:])
     s, v = parse_lines(out)
